@@ -9,11 +9,31 @@ namespace tbbmalloc_whitebox { std::atomic<size_t> locGetProcessed{}; std::atomi
 #include "large_objects.cpp"
 #include "tbbmalloc.cpp"
 #include <cstdio>
+#include <cstdlib>
 #include <cerrno>
 #include <string>
 #include <vector>
 int main(int argc, char** argv) {
     std::string job = argc > 1 ? argv[1] : "";
+    if (job == "remap.size_guard") {
+        // a huge object that lives alone in its region (>= 1 MB) is grown by scalable_realloc -> reallocAligned -> Backend::remap; sizes near SIZE_MAX cannot be represented
+        size_t want = argc > 2 ? std::strtoull(argv[2], nullptr, 0) : 0;
+        std::vector<size_t> sizes; if (want) sizes.push_back(want);
+        for (size_t d : {size_t(16), size_t(4096), size_t(8192), size_t(1) << 20, size_t(1) << 24}) sizes.push_back(SIZE_MAX - d);
+        for (size_t olds : {size_t(16) << 20, size_t(2) << 20, size_t(64) << 20}) for (size_t ns : sizes) {
+            char* p = (char*)scalable_malloc(olds); if (!p) continue;
+            p[0] = 'a'; p[olds - 1] = 'z';
+            errno = 0; char* q = (char*)scalable_realloc(p, ns);
+            if (q != nullptr) {
+                std::printf("REPRODUCED class=remap-size-wrap p = scalable_malloc(%zu); scalable_realloc(p, %zu /* SIZE_MAX-%zu */) returned non-null %p (errno %d, scalable_msize %zu): the request cannot be represented, the old block has been shrunk away\n",
+                            olds, ns, SIZE_MAX - ns, (void*)q, errno, scalable_msize(q));
+                return 0;
+            }
+            if (p[0] != 'a' || p[olds - 1] != 'z') { std::printf("REPRODUCED class=remap-size-wrap failed realloc damaged the live block\n"); return 0; }
+            scalable_free(p);
+        }
+        std::printf("NOT-REPRODUCED\n"); return 0;
+    }
     std::vector<size_t> vals;
     for (int b : {0, 1, 8, 16, 31, 32, 33, 48, 62, 63}) for (long d : {-1L, 0L, 1L}) vals.push_back((size_t(1) << b) + (size_t)d);
     vals.push_back(SIZE_MAX); vals.push_back(SIZE_MAX / 2); vals.push_back(SIZE_MAX / 3); vals.push_back(3); vals.push_back(0xFFFFFFFFull); vals.push_back(0x100000001ull);
